@@ -5,7 +5,7 @@
 From Coq Require Import List String Bool QArith Reals.
 Import ListNotations.
 Require Import Py ListsGen AlgebraGen AlgebraSpec AlgebraSound Sem Term Poly Tactics PolySpec TermFacts PolyLP PolyFacts
-  EvalFacts TacticsLin TacticsFacts Json JsonFacts Ast Syntax SyntaxFacts.
+  EvalFacts TacticsLin TacticsFacts Json JsonFacts Ast Syntax SyntaxFacts Grammar ParseAll ParseAllFacts.
 
 (* the algebra layer (compose / quotient / merge / refines / rename / copy) adds no failure mode of its own *)
 Theorem C14_algebra_compose : forall (D : Domain) c1 c2 keep sp od e,
@@ -41,8 +41,14 @@ Proof. exact optimize_errors_only. Qed.
 Theorem C14_contains : forall ts b, (exists r, contains_behavior ts b = inl r) \/ contains_behavior ts b = inr ValueErr.
 Proof. exact contains_total. Qed.
 
-(* strings: after parsing, only the convexity error (and the division by zero inside constant arithmetic,
-   a documented limit: see DESIGN) *)
+(* strings: the public entry point (polyhedral_termlist_from_string = ParseAll.parse_terms) fails only with the
+   syntax error or the convexity error, for EVERY string; in particular the ZeroDivisionError raised by the
+   constant-arithmetic parse actions no longer escapes (repaired in repo commit de9f256) *)
+Theorem C14_strings : forall s x, parse_terms s = inr x -> x = SyntaxErr \/ x = ConvexErr.
+Proof. exact parse_terms_errors. Qed.
+Theorem C14_strings_no_escape : forall s k, parse_terms s <> inr (Escape k).
+Proof. exact parse_terms_no_escape. Qed.
+(* inside the parse actions (before the entry point converts it) *)
 Theorem C14_fold : forall e x, two_sided e -> fold_expr e = inr x -> x = ConvexErr \/ x = Escape "ZeroDivisionError".
 Proof. exact fold_errors. Qed.
 
@@ -75,5 +81,5 @@ Proof. exact C14_file_machine. Qed.
 Print Assumptions C14_algebra_compose. Print Assumptions C14_algebra_quotient. Print Assumptions C14_algebra_merge.
 Print Assumptions C14_algebra_refines. Print Assumptions C14_algebra_rename. Print Assumptions C14_elimination.
 Print Assumptions C14_simplify. Print Assumptions C14_refines_total. Print Assumptions C14_optimize.
-Print Assumptions C14_contains. Print Assumptions C14_fold. Print Assumptions C14_json_machine.
+Print Assumptions C14_contains. Print Assumptions C14_fold. Print Assumptions C14_strings. Print Assumptions C14_strings_no_escape. Print Assumptions C14_json_machine.
 Print Assumptions C14_json_strings. Print Assumptions C14_json_shape. Print Assumptions C14_json_file.
